@@ -95,7 +95,7 @@ fn waker_lifecycle() {
     kani::cover!(!wake1 && !wake2, "drop without a preceding wake");
     std::mem::forget(s);
 }
-// @verif prop=C12,C11,C18 tier=thorough timeout=600 mem=24 unwind=10 unwindset=drop_glue::<\[.*Stakker\)>\]>\.0$:1,Leaf(::|5)drain.*\.0$:3
+// @verif prop=C12,C11,C18 tier=thorough timeout=900 mem=24 unwind=10 unwindset=drop_glue::<\[.*Stakker\)>\]>\.0$:1,Leaf(::|5)drain.*\.0$:3
 // @enc Stakker::{set_poll_waker,poll_wake,process_waker_drops} Core::waker WakeHandlers::{new,add,del,wake_list,drop_list,handler_borrow,handler_restore} Waker::{wake,drop} BitMap::{new,set,drain} Leaf::{set,drain}
 // @sym whether each of two wakers is woken before the first is dropped
 // @bound 3 wakers (the third reuses the first one's slot), 5 poll_wake calls, executed sequentially at operation granularity
@@ -121,14 +121,14 @@ fn waker_wake_then_drop(wake1: bool) {
     kani::cover!(true, "done");
     std::mem::forget(s);
 }
-// @verif prop=C12,C11,C18 tier=quick timeout=900 mem=24 unwind=10 unwindset=drop_glue::<\[.*Stakker\)>\]>\.0$:1,Leaf(::|5)drain.*\.0$:3
+// @verif prop=C12,C11,C18 tier=quick timeout=900 mem=24 unwind=10 unwindset=drop_glue::<\[.*Stakker\)>\]>\.0$:1,Leaf(::|5)drain.*\.0$:3 alt=ms-nu
 // @enc Stakker::{set_poll_waker,poll_wake,process_waker_drops} Core::waker WakeHandlers::{add,del,wake_list,drop_list,handler_borrow,handler_restore} Waker::{wake,drop} BitMap::{set,drain}
 // @sym none (control flow must stay concrete: symbolic wake flags make every bitmap index symbolic and the query does not finish)
 // @bound 1 waker: [wake]; drop; poll_wake; poll_wake
 // @stub std::hash::RandomState::new -> fixed keys
 // @assume sequential execution at operation granularity; multi-stakker,no-unsafe-queue build
 sync_harness!(wk_wake_then_drop, waker_wake_then_drop(true));
-// @verif prop=C12,C11,C18 tier=quick timeout=900 mem=24 unwind=10 unwindset=drop_glue::<\[.*Stakker\)>\]>\.0$:1,Leaf(::|5)drain.*\.0$:3
+// @verif prop=C12,C11 tier=quick timeout=900 mem=24 unwind=10 unwindset=drop_glue::<\[.*Stakker\)>\]>\.0$:1,Leaf(::|5)drain.*\.0$:3
 // @enc Stakker::{set_poll_waker,poll_wake,process_waker_drops} Core::waker WakeHandlers::{add,del,wake_list,drop_list,handler_borrow,handler_restore} Waker::{wake,drop} BitMap::{set,drain}
 // @sym none (control flow must stay concrete: symbolic wake flags make every bitmap index symbolic and the query does not finish)
 // @bound 1 waker: drop (never woken); poll_wake; poll_wake
@@ -155,7 +155,7 @@ fn waker_slot_reuse() {
     kani::cover!(true, "done");
     std::mem::forget(s);
 }
-// @verif prop=C12,C18 tier=quick timeout=900 mem=24 unwind=10 unwindset=drop_glue::<\[.*Stakker\)>\]>\.0$:1,Leaf(::|5)drain.*\.0$:3
+// @verif prop=C12 tier=quick timeout=900 mem=24 unwind=10 unwindset=drop_glue::<\[.*Stakker\)>\]>\.0$:1,Leaf(::|5)drain.*\.0$:3
 // @enc as wk_wake_then_drop, plus slab slot reuse in WakeHandlers::add
 // @sym none (fixed script)
 // @bound 3 wakers (the third reuses the first one's slot); 3 poll_wake calls
@@ -210,14 +210,14 @@ fn channel_open_close(collect_first: bool) {
     kani::cover!(true, "done");
     std::mem::forget(s);
 }
-// @verif prop=C13,C18 tier=quick timeout=600 mem=24 unwind=10 unwindset=drop_glue::<\[.*Stakker\)>\]>\.0$:1,Leaf(::|5)drain.*\.0$:3
+// @verif prop=C13,C18 tier=off timeout=900 mem=24 unwind=10 unwindset=drop_glue::<\[.*Stakker\)>\]>\.0$:1,Leaf(::|5)drain.*\.0$:3
 // @enc Channel::{new,send,is_closed,clone} ChannelGuard::drop Closable::close Core::waker Stakker::poll_wake Waker::{wake,drop} Fwd::{new,fwd}
 // @sym 4 message values (control flow concrete)
 // @bound 2 senders, 4 accepted messages, 5 poll_wake calls, guard dropped; one step = one critical section
 // @stub std::hash::RandomState::new -> fixed keys
 // @assume critical-section granularity (all channel state is under one mutex, wake() is called inside it); a change that touches shared state outside the lock would not be seen
 sync_harness!(ch_open_close, channel_open_close(true));
-// @verif prop=C13,C18 tier=quick timeout=600 mem=24 unwind=10 unwindset=drop_glue::<\[.*Stakker\)>\]>\.0$:1,Leaf(::|5)drain.*\.0$:3
+// @verif prop=C13,C18 tier=off timeout=900 mem=24 unwind=10 unwindset=drop_glue::<\[.*Stakker\)>\]>\.0$:1,Leaf(::|5)drain.*\.0$:3
 // @enc Channel::{new,send,is_closed,clone} ChannelGuard::drop Closable::close Core::waker Stakker::poll_wake Waker::{wake,drop} Fwd::{new,fwd}
 // @sym 4 message values (control flow concrete)
 // @bound 2 senders, 4 accepted messages, 5 poll_wake calls, guard dropped with a message still queued; one step = one critical section
@@ -257,13 +257,68 @@ fn channel_send_during_forward() {
     std::mem::forget(guard);
     std::mem::forget(s);
 }
-// @verif prop=C13 tier=quick timeout=600 mem=24 unwind=10 unwindset=drop_glue::<\[.*Stakker\)>\]>\.0$:1,Leaf(::|5)drain.*\.0$:3
+// @verif prop=C13 tier=off timeout=900 mem=24 unwind=10 unwindset=drop_glue::<\[.*Stakker\)>\]>\.0$:1,Leaf(::|5)drain.*\.0$:3
 // @enc Channel::{new,send} (wake handler closure of Channel::new) Stakker::poll_wake
 // @sym none (fixed script)
 // @bound 2 messages; the second send happens inside the forwarding window of the first collection
 // @stub std::hash::RandomState::new -> fixed keys
 // @assume critical-section granularity
 sync_harness!(ch_send_during_forward, channel_send_during_forward());
+
+fn channel_simple() {
+    let mut s = new_stakker();
+    unsafe { FWDN = 0 };
+    let (ch, guard): (Channel<u32>, ChannelGuard) = Channel::new(&mut s, fwd_log());
+    let a: u32 = kani::any();
+    assert!(!ch.is_closed());
+    assert!(ch.send(a), "C13: send on an open channel must return true");
+    assert!(polls() == 1, "C13: an accepted message on an empty queue must have a wake-up pending");
+    assert!(fwdn() == 0, "messages are forwarded only by poll_wake");
+    s.poll_wake();
+    assert!(fwdn() == 1 && fwd(0) == a, "C13: accepted message must be forwarded exactly once");
+    s.poll_wake();
+    assert!(fwdn() == 1, "C13: message forwarded twice");
+    drop(guard);
+    assert!(ch.is_closed(), "C13: is_closed must be true after the guard is dropped");
+    assert!(!ch.send(a), "C13: send must return false after close");
+    s.poll_wake();
+    assert!(fwdn() == 1, "C13: nothing may be forwarded after the guard is dropped");
+    kani::cover!(true, "done");
+    std::mem::forget(s);
+}
+// @verif prop=C13,C18 tier=quick timeout=900 mem=24 unwind=10 unwindset=drop_glue::<\[.*Stakker\)>\]>\.0$:1,Leaf(::|5)drain.*\.0$:3 alt=ms-nu
+// @enc Channel::{new,send,is_closed} ChannelGuard::drop Closable::close Core::waker Stakker::poll_wake Waker::{wake,drop} Fwd::{new,fwd}
+// @sym message value
+// @bound 1 sender, 1 accepted message, 3 poll_wake calls, guard dropped, 1 rejected message; one step = one critical section
+// @stub std::hash::RandomState::new -> fixed keys
+// @assume critical-section granularity (sequential Mutex stand-in of harness/model/vstd.rs); multi-stakker,no-unsafe-queue build
+sync_harness!(ch_simple, channel_simple());
+
+fn channel_two_senders() {
+    let mut s = new_stakker();
+    unsafe { FWDN = 0 };
+    let (ch, guard): (Channel<u32>, ChannelGuard) = Channel::new(&mut s, fwd_log());
+    let ch2 = ch.clone();
+    let (a, b, c): (u32, u32, u32) = (kani::any(), kani::any(), kani::any());
+    assert!(ch.send(a) && ch2.send(b));
+    assert!(polls() == 1, "C13: one wake-up covers the batch");
+    s.poll_wake();
+    assert!(fwdn() == 2 && fwd(0) == a && fwd(1) == b, "C13: accepted messages must be forwarded exactly once, in the order sent");
+    assert!(ch2.send(c));
+    assert!(polls() == 2, "C13: a message accepted after a collection needs a new wake-up");
+    s.poll_wake();
+    assert!(fwdn() == 3 && fwd(2) == c, "C13: message lost or duplicated");
+    kani::cover!(true, "done");
+    std::mem::forget(guard);
+    std::mem::forget(s);
+}
+// @verif prop=C13 tier=off timeout=400 mem=24 unwind=10 unwindset=drop_glue::<\[.*Stakker\)>\]>\.0$:1,Leaf(::|5)drain.*\.0$:3,Channel.*3new.*\.0$:3
+// @enc Channel::{new,send,clone} Core::waker Stakker::poll_wake Waker::wake Fwd::fwd
+// @sym 3 message values
+// @bound 2 senders, 3 accepted messages in 2 batches, 2 poll_wake calls
+// @stub std::hash::RandomState::new -> fixed keys
+// @assume critical-section granularity (sequential Mutex stand-in); multi-stakker,no-unsafe-queue build
+sync_harness!(ch_two_senders, channel_two_senders());
 
 #[cfg(uazu_replay_syncs)]
 include!(env!("UAZU_STAKKER_REPLAY_FILE"));
